@@ -6,7 +6,8 @@
 From TT Require Import Lib.Base Model.Router.
 
 (* a router built with StreamResultRouter(fallback, do_start_stop_run) over sinks
-   numbered 0 .. n_sinks-1, and the calls made on it *)
+   numbered 0 .. n_sinks-1, and the calls made on it (accepted and rejected
+   add_rule calls, startTestRun, stopTestRun, status) *)
 Record input := { n_sinks : nat; fb : option sink; fb_ss : bool; ops : list op }.
 
 (* what one call did: did it raise, and for every sink (by number) the calls it newly received *)
@@ -125,6 +126,11 @@ Definition step_okb (i : input) (past : list op) (o : op) (so : step_obs) : bool
   | Stop =>
       negb (s_raised so) && new_is n (fun k => repeat StopRun (count k (registered i past))) (s_new so)
   | Status via e => status_okb i past via e so
+  | AddRej _ _ _ =>
+      (* rejected: the call raises and nobody - in particular not its sink - receives anything; the call is
+         no registration and no rule (registration / prefix_rules / id_rules skip it), so every later call is
+         judged as if it had not been made *)
+      s_raised so && new_is n nobody (s_new so)
   end.
 
 Fixpoint steps_okb (i : input) (past : list op) (l : list op) (os : list step_obs) : bool :=
@@ -180,6 +186,7 @@ Definition Step_spec (i : input) (past : list op) (o : op) (so : step_obs) : Pro
   | Stop =>
       s_raised so = false /\ New_is n (fun k => repeat StopRun (count k (registered i past))) (s_new so)
   | Status via e => Status_spec i past via e so
+  | AddRej _ _ _ => s_raised so = true /\ New_is n nobody (s_new so)
   end.
 
 (* every call, judged against the calls made before it *)
@@ -190,6 +197,8 @@ Definition Spec (i : input) (o : obs) : Prop :=
   /\ o_round o = status_routes (ops i).
 
 (* ---------- well-formed inputs (the quantifier of the property) ---------- *)
+(* the sink of a rejected add_rule is not a rule's sink: it may be any object, in particular the one the
+   caller passes again to a corrected add_rule (op_sinks skips AddRej) *)
 Definition op_sinks (o : op) : list sink :=
   match o with AddPrefix s _ _ _ | AddId s _ _ => [s] | _ => [] end.
 Definition all_sinks (i : input) : list sink :=
